@@ -123,6 +123,11 @@ Terminated ==
 \* the only moment at which the permission bits differ from the original ones is between rename and chmod
 ModeWindow == \A i \in Files : fs[i].m = "tmp" => (i = cur /\ pc \in {"renamed", "cleanup", "exited"})
 
+\* liveness: under weak fairness of the process's own steps (the environment need not kill or fail anything)
+\* every run ends: the process exits or has been killed
+ProcStep == Open \/ MkTemp \/ FinishOk \/ FinishErr \/ Stat \/ Rename \/ Chmod \/ Unlink \/ Exit
+FairSpec == Spec /\ WF_vars(ProcStep)
+Ends == <>(pc = "exited" \/ killed)
 \* every run ends (no deadlock short of exit or kill)
 Progress == (pc # "exited" /\ ~killed) => ENABLED Next
 =============================================================================
